@@ -964,7 +964,8 @@ func TestCheck(t *testing.T) {
 		ID: "C43", Level: "model_checking", Workers: 1,
 		Rule: "BFS to closure; state = full content of the service's four kv buckets; ops: create(id∈pool, org∈{1,2}, db∈{db,dbx}, rp∈{autogen,rp1,rp2}, bucket, default flag), " +
 			"update(id, org, rp, default flag), delete(id, org) incl. unknown ids, wrong org and duplicate pairs (create always uses an unused id, any of the pool); fixed environment of 4 buckets (org1: 'db','db/rp1'; org2: 'dbx/autogen','plain') giving virtual mappings. " +
-			"quick: pool of 2 ids, bucket fixed per id; thorough: pool of 3 ids, both buckets of the org, plus update/delete aimed at the ids of virtual mappings. " +
+			"quick: phase A pool of 2 ids, bucket fixed per id; phase B pool of 1 id plus update/delete aimed at the ids of the virtual mappings 11 ('db') and 21 ('dbx/autogen') with rp∈{autogen,rp1}. " +
+			"thorough: phase A pool of 3 ids, both buckets of the org; phase B pool of 1 id plus virtual ids {11,12,21}; phase C pool of 2 ids plus virtual ids {11,21} (rp∈{autogen,rp1}). Each phase is a BFS to closure. " +
 			"Every transition = replay of the state's shortest history on a fresh real dbrp.Service (inmem kv) plus one op; after each: listing per org, per (org,db), resolution of every (org,db,rp), empty-rp lookup, FindByID " +
 			"are checked against the statement (≤1 bucket per pair, exactly one default per database that has stored mappings, empty-rp lookup returns it, stored mappings = those built by the ops). " +
 			"non-trivial = transitions whose op is applicable in the model or an accepted virtual-id op (distinct by construction); a violation is reported on the transition introducing it",
@@ -974,7 +975,7 @@ func TestCheck(t *testing.T) {
 			"a database whose only mappings are virtual ones derived from 'db/rp' bucket names has no default by construction; the 'exactly one default' clause is applied to databases with at least one stored mapping (at most one default is required everywhere)",
 			"after an accepted update/delete aimed at a virtual mapping's id the set of stored mappings is not predicted by the model; only the statement's invariants on the observable surface are checked from then on",
 		},
-		QuickBudgetS: 100, ThoroughBudgetS: 1200,
+		QuickBudgetS: 100, ThoroughBudgetS: 840,
 		Run: func(c *vlib.Ctx) {
 			phases := []bounds{
 				{name: "A", slots: 2},
@@ -983,7 +984,7 @@ func TestCheck(t *testing.T) {
 			if c.Thorough() {
 				phases = []bounds{
 					{name: "A", slots: 3, bothBkts: true},
-					{name: "B", slots: 1, bothBkts: true, vIDs: []uint64{11, 12, 21}, vRPs: rps},
+					{name: "B", slots: 1, vIDs: []uint64{11, 12, 21}, vRPs: []string{"autogen", "rp1"}},
 					{name: "C", slots: 2, vIDs: []uint64{11, 21}, vRPs: []string{"autogen", "rp1"}},
 				}
 			}
